@@ -713,6 +713,31 @@ type RecursiveFriProof<SC, RecursiveFriMmcs, RecursiveInputProof> = FriProofTarg
     Witness<Val<SC>>,
 >;
 
+/// Checks that the flat challenge vector `[alpha, beta_0, .., beta_{n-1}]` can be split for a
+/// proof with `num_commits` commit-phase commitments.
+///
+/// `get_challenges_circuit` samples one beta per (commitment, PoW witness) pair, so a proof
+/// whose two lists differ in length yields fewer betas than commitments. This must be rejected
+/// before the challenges are sliced by the commitment count.
+fn check_fri_challenge_count(
+    num_challenges: usize,
+    num_commits: usize,
+    num_pow_witnesses: usize,
+) -> Result<(), VerificationError> {
+    if num_pow_witnesses != num_commits {
+        return Err(VerificationError::InvalidProofShape(format!(
+            "Number of commit-phase commitments must equal number of commit-phase pow witnesses: \
+             got {num_commits} commitments and {num_pow_witnesses} witnesses"
+        )));
+    }
+    if num_challenges <= num_commits {
+        return Err(VerificationError::InvalidProofShape(format!(
+            "FRI challenge count mismatch: expected alpha and {num_commits} betas, got {num_challenges} challenges"
+        )));
+    }
+    Ok(())
+}
+
 // Implement `RecursivePcs` for `TwoAdicFriPcs`.
 impl<SC, Dft, Comm, InputMmcs, RecursiveInputMmcs, RecursiveFriMmcs, FriMmcs>
     RecursivePcs<
@@ -838,6 +863,11 @@ where
         let num_betas = opening_proof.commit_phase_commits.len();
         let num_queries = opening_proof.query_proofs.len();
 
+        check_fri_challenge_count(
+            challenges.len(),
+            num_betas,
+            opening_proof.commit_pow_witnesses.len(),
+        )?;
         let alpha = challenges[0];
         let betas = &challenges[1..1 + num_betas];
 
@@ -1238,6 +1268,11 @@ where
         let num_betas = fri_proof.commit_phase_commits.len();
         let num_queries = fri_proof.query_proofs.len();
 
+        check_fri_challenge_count(
+            challenges.len(),
+            num_betas,
+            fri_proof.commit_pow_witnesses.len(),
+        )?;
         let alpha = challenges[0];
         let betas = &challenges[1..1 + num_betas];
 
